@@ -265,6 +265,18 @@ def _():
     got = st.read_result(pc1.memento(2))
     return isinstance(got, bytes) and got == b"bytes-result"
 
+@memento_function(cluster="pc", version="1")
+def xs_parent():
+    from twosigma.memento.partition import InMemoryPartition
+    return InMemoryPartition({"p": 1, "both": 2})
+
+@memento_function(cluster="probe", version="1")
+def xs_child():
+    from twosigma.memento.partition import InMemoryPartition
+    r = InMemoryPartition({"both": 20, "c": 3})
+    r._merge_parent = xs_parent()
+    return r
+
 @memento_function(cluster="probe", version="1")
 def mx_fn(x):
     _MX["events"].append(("body", _MX["held"] > 0))
@@ -384,6 +396,18 @@ def _():
     if seen != {n for n, _ in calls}:
         return None
     return all(h for _, h in state["acc"])
+
+@probe("partition_cross_store_copied")
+def _():
+    # the parent is memoized by a function of another cluster (another directory); the child is read back by fresh backends
+    _cache_env("xs", 0)
+    xs_child()
+    _cache_env("xs", 0)
+    c = xs_child()
+    try:
+        return sorted(c.list_keys()) == ["both", "c", "p"] and c.get("p") == 1 and c.get("both") == 20
+    except FileNotFoundError:
+        return False
 
 @probe("ext_allows_default_cluster")
 def _():
